@@ -22,6 +22,8 @@ const MSG_RX_STATE_BITMAP_LEN: u32 = 16;
 pub struct RxCtrState {
     max_ctr: u32,
     ctr_bitmap: u16,
+    /// `false` until the first counter is received (see [`RxCtrState::unsynced`]).
+    synced: bool,
 }
 
 impl RxCtrState {
@@ -29,6 +31,20 @@ impl RxCtrState {
         Self {
             max_ctr,
             ctr_bitmap: 0xffff,
+            synced: true,
+        }
+    }
+
+    /// The state of a peer from which nothing was received yet.
+    ///
+    /// The first counter received synchronizes the window: it becomes the
+    /// maximum, and - as the first message to arrive need not be the first one
+    /// the peer sent - the counters just below it remain acceptable.
+    pub const fn unsynced() -> Self {
+        Self {
+            max_ctr: 0,
+            ctr_bitmap: 0,
+            synced: false,
         }
     }
 
@@ -51,6 +67,14 @@ impl RxCtrState {
     /// - `true` (group): modular comparison — a counter is forward
     ///   iff `(msg_ctr - max_ctr) mod 2^32` falls in `[1, 2^31 - 1]`, otherwise behind.
     pub fn post_recv(&mut self, msg_ctr: u32, is_encrypted: bool, with_rollover: bool) -> bool {
+        if !self.synced {
+            self.synced = true;
+            self.max_ctr = msg_ctr;
+            self.ctr_bitmap = 0;
+
+            return true;
+        }
+
         if msg_ctr == self.max_ctr {
             // Duplicate
             return false;
